@@ -20,6 +20,7 @@ RULE = (
     "Non-trivial: >= 2 cells and (distorted or curved or rotated by a non-right angle or translated by >= 1), "
     "polynomial of exact degree k with all coefficients |c| >= 0.1."
     ' A third of the polynomial cases also compares every array of float64 / float32 / in-place astype() copies with the cast of its own original (hessian arrays included).'
+    ' Volume cases also reload a region built on other points through mesh.update(points, callback=region.reload) and take copy(hess=True) / copy(quadrature=) - all arrays equal those of a freshly built region.'
 )
 ASSUMPTIONS = [
     "curved tetra10 / 3-D Lagrange order 3 cells are generated straight for the volume sum (their default rules do not integrate det J of a curved cell exactly)",
@@ -80,6 +81,38 @@ def vol_check(kind, case, rec):
         rec.require("uniform-shapes", ru.dV.shape[-1] == 1 and ru.dhdX.shape[-1] == 1, str(ru.dV.shape))
         rec.close("uniform-dV", float(np.abs(np.broadcast_to(ru.dV, dV.shape) - dV).max()) / scale, 1e-13)
         rec.close("uniform-dhdX", float(np.abs(np.broadcast_to(ru.dhdX, region.dhdX.shape) - region.dhdX).max() / np.abs(region.dhdX).max()), 1e-12)
+    # a region built on other points and reloaded on this mesh (the documented mesh.update(points, callback=region.reload))
+    # and copies with another flag / scheme equal the freshly built region
+    def same_arrays(a, b, names):
+        worst = 0.0
+        for nm in names:
+            if not hasattr(a, nm) or not hasattr(b, nm):
+                return float("inf")
+            x, y = np.asarray(getattr(a, nm)), np.asarray(getattr(b, nm))
+            if x.shape != y.shape:
+                return float("inf")
+            worst = max(worst, float(np.abs(x - y).max()) / max(float(np.abs(y).max()), 1e-300))
+        return worst
+
+    names = ["h", "dhdr", "dXdr", "drdX", "dhdX", "dV"]
+    rng = np.random.default_rng(spec["jseed"] + 7)
+    dim = info["dim"]
+    B = np.eye(dim) + rng.uniform(-0.2, 0.2, (dim, dim))
+    other = mesh.copy()
+    other.update(points=np.array(mesh.points) @ B.T + rng.uniform(-1, 1, dim))
+    with warnings.catch_warnings():
+        warnings.simplefilter("ignore")
+        r0 = gm.region(other, info)
+        other.update(points=np.array(mesh.points), callback=r0.reload)
+    rec.close("reload-after-mesh-update=fresh-region", same_arrays(r0, region, names), 1e-14)
+    rec.require("reload-keeps-the-mesh-object", r0.mesh is other)
+    if not kind.startswith("lagrange") and kind != "line":
+        if hasattr(region.element, "hessian"):  # elements without second derivatives do not offer hess=True
+            fresh_h = gm.region(mesh, info, hess=True)
+            rec.close("copy(hess=True)=fresh-region", same_arrays(region.copy(hess=True), fresh_h, names + ["d2hdrdr", "d2hdXdX"]), 1e-14)
+        q2 = (fem.TriangleQuadrature(order=5) if dim == 2 else fem.TetrahedronQuadrature(order=5)) if info["simplex"] else fem.GaussLegendre(order=info["order"] + 1, dim=dim)
+        rec.close("copy(quadrature=)=fresh-region", same_arrays(region.copy(quadrature=q2), gm.region(mesh, info, quadrature=q2), names), 1e-14)
+        rec.close("copy-leaves-the-original", same_arrays(region, gm.region(mesh, info), names), 1e-14)
     rec.label("cells>=2" if mesh.ncells >= 2 else "single-cell")
     if spec["curve"] > 0:
         rec.label("curved")
